@@ -195,7 +195,7 @@ func ruleCtxArmIn(c *Ctx, r *R, onlyRel string) {
 		name := c.nameOf(fn)
 		// calls that block without any way for the context to interrupt them: time.Sleep, or an in-module function that
 		// takes no context and blocks on a channel (f.Wait() inside f.WaitContext)
-		nc := 0
+		nc, nd := 0, 0
 		instrs(fn, func(b *ssa.BasicBlock, i int, in ssa.Instruction) {
 			call, ok := in.(*ssa.Call)
 			if !ok {
@@ -205,6 +205,34 @@ func ruleCtxArmIn(c *Ctx, r *R, onlyRel string) {
 				nc++
 				r.violated(name+"|time.Sleep#"+itoa(nc), call.Pos(), "time.Sleep in a function that takes a context: the sleep cannot be interrupted when the context ends (cancellation, parent cancellation)")
 				return
+			}
+			// blocking delegated to a module helper that takes a context (chans.RecvContext(ctx, ch)): it must be given this
+			// function's context (or one derived from it), not some other one
+			if cal := staticCallee(&call.Call); cal != nil && c.inModule(cal) && cal.Parent() == nil && cal != fn {
+				if cp := ctxParam(origin(cal)); cp != nil && len(origin(cal).Blocks) > 0 {
+					blocks := false
+					for _, op := range chanOpsOf(origin(cal)) {
+						if op.blocking {
+							blocks = true
+						}
+					}
+					ci := -1
+					for i, pp := range origin(cal).Params {
+						if pp == cp {
+							ci = i
+						}
+					}
+					if blocks && ci >= 0 && ci < len(call.Call.Args) {
+						nd++
+						mine := true
+						for _, o := range ctxOrigins(call.Call.Args[ci], map[ssa.Value]bool{}) {
+							if o != ssa.Value(p) && !derivedFromCtx(o, p, 0) {
+								mine = false
+							}
+						}
+						r.ok(mine, name+"|ctx-delegated:"+fname(cal)+"#"+itoa(nd), call.Pos(), "the blocking helper "+funcShort(cal)+" must be given "+p.Name()+" (or a context derived from it): with any other context the wait cannot be interrupted when "+p.Name()+" ends")
+					}
+				}
 			}
 			if cal := staticCallee(&call.Call); cal != nil && c.inModule(cal) && cal.Parent() == nil {
 				if why := blocksWithoutCtx(cal); why != "" {
@@ -746,4 +774,28 @@ func rootFn(fn *ssa.Function) *ssa.Function {
 		fn = fn.Parent()
 	}
 	return fn
+}
+
+// derivedFromCtx: o is the context result of context.With*(p, …) (possibly nested).
+func derivedFromCtx(o ssa.Value, p ssa.Value, d int) bool {
+	if d > 3 {
+		return false
+	}
+	if ex, ok := o.(*ssa.Extract); ok && ex.Index == 0 {
+		o = ex.Tuple
+	}
+	call, ok := o.(*ssa.Call)
+	if !ok {
+		return false
+	}
+	cal := call.Call.StaticCallee()
+	if cal == nil || cal.Pkg == nil || cal.Pkg.Pkg.Path() != "context" || !strings.HasPrefix(cal.Name(), "With") || len(call.Call.Args) == 0 {
+		return false
+	}
+	for _, o2 := range ctxOrigins(call.Call.Args[0], map[ssa.Value]bool{}) {
+		if o2 != p && !derivedFromCtx(o2, p, d+1) {
+			return false
+		}
+	}
+	return true
 }
